@@ -67,6 +67,26 @@ Definition tbl_env (parsed : option pman) (vt : list (bytes * bool)) : env := {|
   verify_raw := fun _ _ _ msg => match lookup_bytes msg vt with Some b => b | None => false end
 |}.
 
+(** The environment of a signing-entry case: fiano's NewSignatureData accepts
+    exactly the scheme ids in [signable] for the key of the case (tabulated by the
+    harness by calling fiano directly, for every id a name can stand for). *)
+Definition sign_env (signable : list Z) : env := {|
+  M := pman; PK := unit; SK := unit;
+  ser := pm_ser;
+  parse := fun _ _ _ => None;
+  prep := fun _ _ m => m;
+  keysig_off := fun m => Z.to_nat (pm_keysig m);
+  pmse_off := fun m => Z.to_nat (pm_pmse m);
+  pmse_ks_off := fun m => Z.to_nat (pm_pmseks m);
+  pkhash := pm_pkhash;
+  store := fun _ _ m _ _ => m;
+  key_of := fun _ => tt;
+  sig_of := fun _ => mk_sig 0 0 [];
+  pub := fun _ => tt;
+  sign_raw := fun _ sch _ => if existsb (Z.eqb sch) signable then Some [] else None;
+  verify_raw := fun _ _ _ _ => false
+|}.
+
 Definition gen_of_Z (z : Z) : gen := if z =? 2 then V20 else V10.
 Definition doc_of_Z (z : Z) : doc := if z =? 1 then BPM else KM.
 
@@ -92,6 +112,15 @@ Inductive case : Type :=
    (found by the harness with crypto/rsa over all prefixes) and the HashAlg
    stored in the output *)
 | CSign (g d : Z) (m : pman) (sch req : Z) (signed_len : Z) (stored : Z)
+(* bg./cbnt.GetAlgFromString on a name: Some id / None (error) *)
+| CParseName (g : Z) (name : bytes) (r : option Z)
+(* a signing entry point called with NAMES (SignKM(signAlgo, key) / SignBPM(signAlgo,
+   hashAlgo, key)) on an RSA key: offsets of the prepared structure, the two names,
+   the scheme ids fiano signs with for this key; observed: outcome class, and on
+   success the length of the prefix the signature verifies on and the HashAlg
+   stored in the output *)
+| CSignEntry (g d : Z) (m : pman) (sname hname : bytes) (signable : list Z)
+             (r : obs unit) (signed_len : Z) (stored : Z)
 (* NewKM/NewBPM + VerifyKM/VerifyBPM on a file *)
 | CVerifyFile (d : Z) (file : bytes) (parsed : option pman) (vt : list (bytes * bool)) (r : obs unit)
 (* VerifyKM/VerifyBPM on a BootGuard value with an arbitrary Version *)
@@ -155,6 +184,21 @@ Definition check (c : case) : bool :=
       let g' := gen_of_Z g in let d' := doc_of_Z d in
       (Z.of_nat (sign_cut E g' d' m) =? sl) &&
       (stored_hash g' sch (req_hash E d' m req) =? st)
+  | CParseName g name r => opt_Z_eqb (parse_alg (gen_of_Z g) name) r
+  | CSignEntry g d m sname hname signable r sl st =>
+      let E := sign_env signable in
+      let g' := gen_of_Z g in let d' := doc_of_Z d in
+      match sign_entry E g' d' m sname hname tt, r with
+      | Ok _, OOk _ =>
+          (Z.of_nat (sign_cut E g' d' m) =? sl) &&
+          match parse_alg g' sname,
+                (match g', d' with V20, BPM => parse_alg V20 hname | _, _ => Some 0 end) with
+          | Some sch, Some req => stored_hash g' sch (req_hash E d' m req) =? st
+          | _, _ => false
+          end
+      | Err _, OErr => true
+      | _, _ => false
+      end
   | CVerifyFile d file parsed vt r =>
       let E := tbl_env parsed vt in
       let d' := doc_of_Z d in
